@@ -81,4 +81,3 @@ try:
             json.dump(meta, f, indent=1)
 finally:
     shutil.rmtree(d, ignore_errors=True)
-    shutil.rmtree(os.path.join(V, "replays"), ignore_errors=True)
